@@ -103,7 +103,7 @@ class Baton:
 
     def _wait(self, i):
         while self.turn != i and not self.broken:
-            if not self.cv.wait(timeout=120):
+            if not self.cv.wait(timeout=20):
                 self.broken = True      # (a stuck partner must not hang the check: everybody runs freely from here on)
                 self.cv.notify_all()
 
@@ -143,11 +143,17 @@ def interleaved(group, rng):
             out[i] = 'harness error %r' % (e,)
         finally:
             baton.done(i)
-    threads = [threading.Thread(target=work, args=(i, sc)) for i, sc in enumerate(group)]
+    threads = [threading.Thread(target=work, args=(i, sc), daemon=True) for i, sc in enumerate(group)]
     for t in threads:
         t.start()
     for t in threads:
-        t.join()
+        t.join(timeout=90)
+    for i, t in enumerate(threads):
+        if t.is_alive():
+            out[i] = 'did not finish'
+            with baton.cv:
+                baton.broken = True
+                baton.cv.notify_all()
     return out, baton.handovers
 
 
@@ -174,11 +180,13 @@ def run(tier, seed, drv, scenarios=None):
 
             def work(i, sc):
                 out[i] = msuite.obs_line(dsl.run_impl(sc))
-            threads = [threading.Thread(target=work, args=(i, sc)) for i, sc in enumerate(group)]
+            threads = [threading.Thread(target=work, args=(i, sc), daemon=True) for i, sc in enumerate(group)]
             for t in threads:
                 t.start()
             for t in threads:
-                t.join()
+                t.join(timeout=90)
+            if len([v for v in st.res.violations if v['key'].get('clause') == 'thread-isolation']) >= 5:
+                break       # (enough replays; a change that couples the threads makes every further group slow)
             for i, sc in enumerate(group):
                 st.res.evaluations += 1
                 if out[i] != traces[base + i]:
@@ -191,6 +199,8 @@ def run(tier, seed, drv, scenarios=None):
         handovers = 0
         for base in range(0, min(len(scs), 1600), 4):
             group = scs[base:base + 4]
+            if len([v for v in st.res.violations if v['key'].get('clause') == 'thread-isolation']) >= 5:
+                break
             outs, n = interleaved(group, rng_for(seed, PID + 'baton', base))
             handovers += n
             for i, sc in enumerate(group):
